@@ -196,9 +196,10 @@ def judge_instance(ctx, inst, F, D, case, tag, all_perms):
     nonsym = (any(F[i][j] != F[j][i] for i in range(n) for j in range(n))
               and any(D[i][j] != D[j][i] for i in range(n)
                       for j in range(n)))
+    xbuf = space.create() if space is not None else None
     for p in perms:
         if space is not None:
-            x = space.create()
+            x = xbuf          # one point buffer, overwritten in place
             x[:] = p
         else:
             x = np.array(p, np.int64)
